@@ -503,6 +503,42 @@ def run(prog, ctx):
     res.rule("C02.Q", n_q, 3, "open-addressing probe loops in hll::")
     res.rule("C02.Q2", check_set_probe(prog, res, "C02.Q2"), 1, "probe formula of the coupon hash set")
     res.rule("C02.Q3", check_duplicate_decision(prog, res, "C02.Q3"), 2, "duplicate decision of the coupon list and set")
+    # an index found by a probe is used in the table it was found in: no growth between the probe and the store
+    n_q4 = 0
+    for owner, buf in (("hll::aux_map::AuxMap", "entries"), ("hll::container::Container", "coupons"), ("hll::hash_set::HashSet", "container")):
+        n_q4 += 1
+        bad = list(C.stale_index_stores(prog, owner, buf))
+        for f, sb, gcal in bad:
+            res.violate("C02.Q4", "C02.Q4|%s|%s" % (f.id, buf), "%s stores into `%s` at an index obtained before the call of %s, which can reallocate the table: the pair lands where "
+                        "its own probe sequence does not look" % (f.id, buf, gcal), f.id)
+        res.obligations += 1
+        if not bad:
+            res.discharged += 1
+    res.rule("C02.Q4", n_q4, 3, "probe index used before the table can grow")
+    # 4-bit array: after an update some register is at cur_min again.  One shift of cur_min can leave the count at zero (no register
+    # held cur_min + 1), so the shift is repeated while the count of registers at cur_min is zero: the call of the shifting routine
+    # (the one that stores cur_min) sits in a loop whose continuation depends on that count
+    n_sh = 0
+    A4_ = ARRAYS[0]
+    shifters = set(f.id for f in C.fns_of(prog, A4_) if any(True for _ in sym.field_stores(prog, adt=A4_, field="cur_min", fns=[f]) if _[2] == "assign"))
+    for f in C.fns_of(prog, A4_):
+        if f.promoted or f.id in shifters:
+            continue
+        sf_ = Sym(prog, f)
+        loops_ = sf_.loops()
+        for b, site in f.calls():
+            if site.get("callee") not in shifters:
+                continue
+            n_sh += 1
+            inl = [(h, body) for h, body in loops_ if b in body]
+            if not inl:
+                res.tri(False, "C02.S", "C02.S|%s" % f.id, "%s shifts cur_min once (call of %s outside any loop): when no register holds cur_min + 1 the count of registers at cur_min "
+                        "stays zero, cur_min stays below the true minimum and every register 15 above it becomes an aux entry" % (f.id, site["callee"]), f.id, site.get("span"))
+                continue
+            h, body = min(inl, key=lambda x: len(x[1]))
+            conds = [show(x) for bb in body for x in ([sf_.at(bb, "t").operand(f.blocks[bb].term[1])] if f.blocks[bb].term[0] == "switch" else [])]
+            res.tri(True if any("num_at_cur_min" in c or "cur_min" in c for c in conds) else None, "C02.S", "C02.S|%s" % f.id, "loop around the cur_min shift not recognised (%s)" % conds[:2], f.id)
+    res.rule("C02.S", n_sh, 1, "cur_min shift repeated until a register is at cur_min")
 
     # ---------------- C02.D : Mode dispatch completeness
     n_d = 0
